@@ -15,6 +15,10 @@ SIZES = [1, 125, 126, 1000, 16383, 16384, 16385, 32768, 65535, 65536, 65537, 131
 RECORDS = [1, 2, 100, 1024, 4096, 16383, 16384]
 
 
+# violating frames that the frame parser rejects while parsing and that deliver nothing themselves
+TAIL_CLASSES = ["reserved_opcode", "reserved_bits", "fragmented_control", "control_too_long", "masked_frame"]
+
+
 def burst_bytes(b):
     """A burst spec -> (bytes, [(end offset, expected event)], ping payloads)"""
     out = bytearray()
@@ -128,6 +132,8 @@ class C18(Prop):
             "chunk": st.one_of(st.none(), st.sampled_from([1000, 16384, 20000, 65536, 70000])),
             # an earlier connection in this process (same WebSocket object or another) and how it ended
             "prelude": gen.prelude(),
+            "tail_violation": gen.weighted([(5, st.none()), (1, st.fixed_dictionaries({
+                "class": st.sampled_from(TAIL_CLASSES), "a": st.integers(0, 20), "b": st.integers(0, 20), "wide": st.booleans()}))]),
             # a second live connection in the same process (interleaved with this one, or blocked in a send)
             "companion": gen.companion(),
             # calls with unsendable arguments that the application tries (and whose error it catches) on the way
@@ -169,7 +175,16 @@ class C18(Prop):
                         yield {"tls": tls, "record": 16384, "with_reply": n == 2, "chunk": None,
                                "bursts": [[4, {"kind": "many_small", "n": n, "rep": 1, "ping_every": None, "shapes": shapes}],
                                           [8, {"kind": "many_small", "n": 1, "rep": 1, "ping_every": None, "shapes": [0]}]]}
-        return [Enumeration("sizes_x_records_grid", grid, exhaustive=True)]
+        def with_tail():
+            for tls in (False, True):
+                for c in TAIL_CLASSES:
+                    for a in (0, 1, 2):
+                        for n in (1, 3, 200):
+                            yield {"tls": tls, "eager": False, "record": 16384, "with_reply": n == 3, "chunk": None,
+                                   "tail_violation": {"class": c, "a": a, "b": 1, "wide": False},
+                                   "bursts": [[4, {"kind": "many_small", "n": n, "rep": 3, "ping_every": 2}]]}
+        return [Enumeration("sizes_x_records_grid", grid, exhaustive=True),
+                Enumeration("bursts_followed_by_a_violating_frame", with_tail, exhaustive=True)]
 
     def run_case(self, case):
         tls = case["tls"]
@@ -184,8 +199,13 @@ class C18(Prop):
         first = True
         big_read = False
         straddle = False
-        for dt, b in case["bursts"]:
+        for bi, (dt, b) in enumerate(case["bursts"]):
             data, ends = burst_bytes(b)
+            if case.get("tail_violation") and bi == len(case["bursts"]) - 1:
+                # ONE protocol-violating frame right behind the last burst (in the same arrival): everything complete
+                # in front of it is available and has to be delivered - and every Ping answered - all the same
+                from props.c04 import violating_frames
+                data += violating_frames(dict(case["tail_violation"]), False)
             seg = "whole" if not case.get("chunk") else ["uniform", case["chunk"]]
             gap = dt * 0.25
             if first and case["with_reply"]:
